@@ -295,6 +295,10 @@ def run(ctx):
     ctx.ob("A-ATOM-LEX", "segment_atom: rejected iff name and prefix are both empty", oke, "expected `if content_start >= right_border && prefix.is_empty() { return err }`")
     import tables as _t3
     _t3.rule_T_SPACE(ctx, _t3.Tables(ctx), models=("lex",))
+    # the lexical segmenters advance by the length of the keyword they have just matched (B-LEN's FITS generators): a step taken with another
+    # keyword's length stays in range but cuts the wrong token (seed c02-l)
+    import blen as _blen
+    _blen.rule_B_LEN(ctx)
     ctx.undecided = ["structural equality of the re-parsed tree for all vocabulary-consistent values (nesting- and value-dependent)"]
     ctx.assumptions = ["nar_dev_utils join helpers and dictionaries behave as summarised (source hash asserted)"]
     ctx.trusted = ["rustc HIR/MIR", "mirfacts driver", "pinned nar_dev_utils 0.42.3 source", "python rule layer"]
